@@ -116,7 +116,12 @@ def table_problems(fasta_records, table_text):
             pairs_t.add((f[0], f[1]))
             try:
                 a, b = int(f[3]), int(f[4])
-                if f[0][a:b] != f[2] or not (0 <= a < b <= len(f[0])):
+                # a segment may end one position past the last residue when it carries a trailing partial
+                # codon (end_offset > 0: the transcript ends inside a codon); that is the table's documented
+                # coordinate convention (residue index + nucleotide offset), not a wrong slice
+                eoff = int(f[10]) if len(f) > 10 and f[10].isdigit() else 0
+                hi = len(f[0]) + (1 if eoff else 0)
+                if f[0][a:b] != f[2] or not (0 <= a <= b <= hi) or (a == b and not eoff):
                     probs.append(('row-slice', line[:120]))
             except ValueError:
                 probs.append(('row-int', line[:80]))
